@@ -17,9 +17,31 @@ PROPS = {
                  "values the constructors reject"],
         assumptions=[],
     ),
+    "C03": dict(
+        modules=["harness.c03", "harness.c03_sites"],
+        level="other",
+        explanation="Bounded symbolic execution of the real access-control code: (1) the decision function against "
+                    "a reference predicate written from the statement and docs/source/server.rst, with the policy "
+                    "shape and both identities symbolic; (2) the choke point and the Locate listing over a stub "
+                    "store; (3) every handler that addresses an object, under a denying policy: masked error, "
+                    "store untouched, nothing disclosed. A condition counts only when its path tree is exhausted.",
+        stubs=["FakeSession (three query shapes of the engine)", "NullLogger", "engine.time pinned"],
+        outside=["policies with more than two groups / requesters in more than two groups (the loop is uniform)",
+                 "multi-client histories (one-step argument: no handler writes owner or policy name - asserted)"],
+        assumptions=["FakeSession renders SQLite's integer-affinity comparison of a text identifier with the key as "
+                     "str(obj.unique_identifier) == uid"],
+    ),
 }
 
 CLAIMS = {
+    "C03": dict(
+        text="For every policy shape, identity pair, requester-group shape, object type and operation inside the "
+             "bounds the real decision function agrees with a reference predicate written from the statement; "
+             "the choke point raises the not-found-identical error exactly when that predicate denies; every "
+             "object-addressing handler under a denying policy leaves the store untouched and discloses nothing.",
+        note="Trusts FakeSession's rendering of the engine's three query shapes and the reference predicate; "
+             "bounded (<=2 policy groups, identity strings <=2 chars, store <=3 objects).",
+    ),
     "C01": dict(
         text="For every value inside the stated bounds (all 32/64-bit integers, every member of every enumeration, "
              "byte/ASCII text strings up to the length bound, BigInteger up to the bit bound, each listed structure "
